@@ -61,9 +61,15 @@ func (l *vpLog) emit(level string, format string, args []interface{}) {
 	}
 }
 
-func (l *vpLog) Infof(ctx context.Context, format string, args ...interface{})  { l.emit("info", format, args) }
-func (l *vpLog) Errorf(ctx context.Context, format string, args ...interface{}) { l.emit("error", format, args) }
-func (l *vpLog) Debugf(ctx context.Context, format string, args ...interface{}) { l.emit("debug", format, args) }
+func (l *vpLog) Infof(ctx context.Context, format string, args ...interface{}) {
+	l.emit("info", format, args)
+}
+func (l *vpLog) Errorf(ctx context.Context, format string, args ...interface{}) {
+	l.emit("error", format, args)
+}
+func (l *vpLog) Debugf(ctx context.Context, format string, args ...interface{}) {
+	l.emit("debug", format, args)
+}
 func (l *vpLog) Record(ctx context.Context, r map[string]string, obscure ...string) {
 	l.calls++
 	for k, v := range r {
